@@ -11,7 +11,8 @@ CONFIG = dict(
     rule=("same program workload as C03; each program is stepped in lockstep on fickling's Interpreter "
           "and on the reference VM and after every opcode (stack depth, mark positions, memo key set) "
           "are compared, so every prefix of every program is a check; Trace.run is compared with an "
-          "untraced interpretation on a subset.  A case is one distinct byte string; non-trivial = "
+          "untraced interpretation on a subset, also with the interpreter parameters the CLI uses for the "
+          "k-th pickle of a stack (first_variable_id, result_variable) and from a partially stepped interpreter.  A case is one distinct byte string; non-trivial = "
           ">=3 lockstep steps compared including at least one mark or memo opcode."),
     assumptions=[
         "CPython's pickle._Unpickler (metastack flattened, one slot per MARK) is the reference VM",
@@ -72,6 +73,38 @@ def trace_check(ctx, label, data, o, names):
     if p1.dumps() != before or before != data[:len(before)]:
         agg.violation("trace-changes-bytes", "tracing changed the serialised bytes",
                       diffrun.witness(label, data, names))
+    # the interpreter's own parameters (what the CLI passes for the k-th pickle of a stack) and a
+    # partially stepped interpreter: traced == untraced with the same parameters / same starting point
+    if not o.fick_ok:
+        return
+    for fv, rv, pre in ((7, "result3", 0), (0, "result", 2), (3, "out", 1)):
+        try:
+            ia, ib = (f.Interpreter(f.Pickled.load(data), first_variable_id=fv, result_variable=rv) for _ in range(2))
+            for _ in range(pre):
+                ia.step()
+                ib.step()
+            plain = ia.to_ast()
+            with contextlib.redirect_stdout(io.StringIO()):
+                traced = tracing.Trace(ib).run()
+        except StopIteration:
+            continue
+        except RecursionError:
+            return
+        except Exception as e:
+            agg.violation(f"trace-raises:{type(e).__name__}:parametrised",
+                          "tracing (or untraced interpretation) with first_variable_id / result_variable / a partially "
+                          "stepped interpreter raised although plain decompilation succeeds",
+                          diffrun.witness(label, data, names, error=repr(e)[:300], params=[fv, rv, pre]))
+            return
+        agg.count("trace_param_checks")
+        if de.sdump(traced) != de.sdump(plain) or ia.next_variable_id != ib.next_variable_id:
+            agg.violation("trace-changes-program:parametrised",
+                          "with the same first_variable_id / result_variable / starting point Trace.run returns a different "
+                          "program (or leaves a different next_variable_id) from untraced interpretation",
+                          diffrun.witness(label, data, names, params=[fv, rv, pre], traced=ast.unparse(traced)[:300],
+                                          plain=ast.unparse(plain)[:300],
+                                          next_ids=[ia.next_variable_id, ib.next_variable_id]))
+            return
 
 
 def oracle(ctx, label, data, o, names):
